@@ -416,13 +416,13 @@ func doTrace(w World, prop string, base uint64, idx int, tier string) {
 	traceOn = true
 	v := w.Exec(p, st)
 	b, _ := json.Marshal(p)
-	fmt.Printf("plan %016x %s\n", p.Hash(), b)
+	fmt.Fprintf(resultOut, "plan %016x %s\n", p.Hash(), b)
 	for _, l := range traceLog {
-		fmt.Println(l)
+		fmt.Fprintln(resultOut, l)
 	}
-	fmt.Printf("steps=%d ops=%d switches=%d sched=%016x faults=%v unjudged=%v\n", st.Steps, st.Ops, st.Switches, st.SchedHash, st.Faults, st.Unjudged)
+	fmt.Fprintf(resultOut, "steps=%d ops=%d switches=%d sched=%016x faults=%v unjudged=%v\n", st.Steps, st.Ops, st.Switches, st.SchedHash, st.Faults, st.Unjudged)
 	vb, _ := json.Marshal(v)
-	fmt.Printf("violation %s\n", vb)
+	fmt.Fprintf(resultOut, "violation %s\n", vb)
 }
 
 var traceOn bool
